@@ -184,12 +184,15 @@ CHECKS = {'C09': {'category': 'translation_validation',
          'text': "C12_typed_fifo, buffer content, push/pop failure characterisations and never-overwrites are theorems about the machine that the real typed buffer's traces are replayed against step "
                  "by step (3000+ traces per run). The void variant's record layout (headers, tail markers, wrap) is a proved sequential model over the translated size helpers; its producer/consumer "
                  'interleavings are decided by the byte-exact oracle on explored schedules.'},
- 'C08': {'category': 'exploration',
-         'note': 'SC interleavings only (threads serialised by a baton at every atomic operation); explored schedules only for the history/oracle ties; memory orders not modelled; Lean kernel + '
-                 'propext/Classical.choice/Quot.sound.',
-         'technique': 'oracles over self-recorded real-time histories of the real SegmentedQueue (conservation, quasi bound in its sound real-time reading, empty rule) under a deterministic '
-                      'scheduler with a deterministic permutation generator; no Lean model yet',
-         'text': 'Decided on explored schedules only. The Lean side currently contributes only the verified checker infrastructure; a segmented-queue model is not written.'},
+ 'C08': {'category': 'proof',
+         'technique': 'Lean 4: atomic-step machine of SegmentedQueue (segment list, lock, permuted cell scans, create_tail / remove_head) with conservation, EMPTY and quasi-bound theorems over all '
+                      'schedules and permutation inputs + atomic-trace conformance of the real queue + client oracles on self-recorded real-time histories',
+         'text': 'C08_conservation / C08_content (every stored item sits in exactly one unmarked cell of a listed segment until it is taken, taken at most once), C08_empty_means_taken, '
+                 'C08_dequeue_from_first_segment, C08_quasi_segment / C08_quasi_bound (an item is overtaken only by items of its own segment: at most K-1), C08_cells_write_once, C08_lock hold for '
+                 'any number of threads, any K and any permutation choices. The real queue is replayed against the machine step by step (hidden variant with named list pointers, lock and cells; the '
+                 "permutation of every scan is passed to the machine). The client's oracles (conservation, quasi bound, empty rule) run on all variants.",
+         'note': 'SC interleavings only; memory orders not modelled; no segment reuse in the machine (what C01/C02 provide); explored schedules only for the trace and oracle ties; Lean kernel + '
+                 'propext/Classical.choice/Quot.sound.'},
  'C17': {'category': 'translation_validation',
          'note': 'sequential growth only; concurrent resizes are judged by C14/C16.',
          'technique': 'single-threaded differential runs of CuckooSet/StripedSet/SplitListSet growth against a std::set reference after every operation, with degenerate hash families; Lean theorems '
